@@ -186,6 +186,9 @@ class ISD(model.Document):
 
   def _region_always_has_background(region: typing.Type[model.Region]) -> bool:
 
+    if any(True for _ in region.iter_animation_steps()):
+      return True
+
     if region.get_style(styles.StyleProperties.Opacity) == 0:
       return False
 
